@@ -67,3 +67,8 @@ abbrev Callpoint := C16.Callpoint
 def Callpoint.dline (c : Callpoint) : DLine := ⟨c.line⟩
 
 end PyRtC16
+
+namespace PyRtC16
+/-- an exception class as the display-name code sees it: `__qualname__` (a str) and `__module__` (`none`: not a str) -/
+abbrev ExcType := C16.ExcType
+end PyRtC16
